@@ -38,9 +38,16 @@ def set_triple(rng):
         out.append(rng.choice([",", ", ", " ,"]).join(c2))
     return out
 
+ESCAPED = ['"a\\x22b\'c"', '"a\\\\x22b\'c"', "'a\\x27b\"c'", '"a\\\\b"', '"a\\x5cb"', '"a\\x62"', '"ab"', "'a\"b'", '"a\\x22b"']
 def marker_triple(rng):
+    if rng.random() < 0.1:
+        # literals spelled with Python escapes (outside PEP 508, but accepted): equal markers must still evaluate alike
+        var = rng.choice(["platform_version", "os_name", "platform_release"])
+        return ["%s == %s" % (var, rng.choice(ESCAPED)) for _ in range(3)]
     m = gen_misc.marker(rng, 2)
-    return [m, gen_misc.marker_variant(rng, m), rng.choice([gen_misc.marker_variant(rng, m), gen_misc.marker(rng, 2)])]
+    out = [m, gen_misc.marker_variant(rng, m), rng.choice([gen_misc.marker_variant(rng, m), gen_misc.marker(rng, 2)])]
+    if rng.random() < 0.4: out[rng.randrange(3)] = "REQ:" + out[0]        # same text through Requirement(...).marker
+    return out
 
 def req_triple(rng):
     r = gen_misc.requirement(rng)
